@@ -168,7 +168,9 @@ class MasterDriver:
         rng, z, api, zk = self.rng, self.z, self.api, self.admin
         boot = self.srv.client('boot')
         self.master_mod.Master(self.zkbackend.ZkBackend(boot), 'cell').create_rootns()
-        self.labels = ['_default'] + ['part%d' % i for i in range(1, rng.randint(1, 2))]
+        self.labels = ['_default'] + ['part%d' % i for i in range(1, rng.choice([1, 2, 2, 3]))]
+        self.partition_per_rack = len(self.labels) > 1 and rng.random() < 0.4
+        self.rack_label = {}
         self.H.labels = list(self.labels)
         self.traits_on = rng.random() < 0.5
         # the cell's declared trait list: all of them, or a subset (servers then report undeclared traits, which
@@ -241,6 +243,9 @@ class MasterDriver:
         name = 's%d' % self._next()
         label = rng.choice(self.labels)
         parent = rng.choice(self.leaf_parents)
+        if self.partition_per_rack:
+            # partitions laid out along the topology: all servers of a rack belong to one partition
+            label = self.rack_label.setdefault(parent, label)
         traits = [t for t in TRAITS if self.traits_on and rng.random() < 0.4]
         self.pending_known = getattr(self, 'pending_known', set()) | set(traits)
         cap = self.gen_cap()
@@ -467,8 +472,23 @@ class MasterDriver:
             self.Z['apps'][i] = dict(man=dict(man), demand=demand)
         self.ops.append(('create_apps', ids, man))
 
-    def op_delete_apps(self):
+    def _assigned_partition(self, name):
+        base = name.split('#')[0]
+        for a in self.Z['allocs']:
+            for asg in a['assignments']:
+                pat = asg['pattern']
+                if pat == base or (pat.endswith('*') and base.startswith(pat[:-1])):
+                    return a['partition']
+        return '_default'
+
+    def op_delete_apps(self, placed_only=False, prefer=()):
         apps = sorted(self.Z['apps'])
+        if placed_only:
+            # instances that have a placement record right now
+            placed = {a for s in self.srv.children(self.z.PLACEMENT) for a in self.srv.children(self.z.path.placement(s))}
+            apps = [a for a in apps if a in placed]
+            if [a for a in apps if a in prefer]:
+                apps = [a for a in apps if a in prefer]
         if not apps:
             return
         victims = self.rng.sample(apps, min(len(apps), self.rng.choice([1, 1, 2])))
@@ -553,7 +573,13 @@ class MasterDriver:
         elif kind == 'prio':
             self.op_prio()
         elif kind == 'allocations':
+            before = {a: self._assigned_partition(a) for a in self.Z['apps']}
             self.op_allocations()
+            if rng.random() < 0.5:
+                # a running instance is deleted right after its assignment moved (to another partition, if there
+                # is such an instance): same batch of events, before the next cycle looks at invalid placements
+                moved = [a for a in sorted(self.Z['apps']) if before.get(a) != self._assigned_partition(a)]
+                self.op_delete_apps(placed_only=True, prefer=moved)
         elif kind == 'server_new' and len(servers) < self.pf.max_servers + 2:
             self.op_server_new()
         elif kind == 'server_delete' and len(servers) > 1:
@@ -562,6 +588,8 @@ class MasterDriver:
             self.op_server_cap(rng.choice(servers))
         elif kind == 'server_attrs' and servers:
             self.op_server_attrs(rng.choice(servers))
+            if rng.random() < 0.3:
+                self.op_delete_apps(placed_only=True)
         elif kind == 'server_traits' and servers and self.traits_on:
             self.op_server_traits(rng.choice(servers))
         elif kind == 'presence_down' and self.node_clients:
